@@ -6,6 +6,7 @@ import (
 	"go/token"
 	"go/types"
 	"math/big"
+	"os"
 
 	"golang.org/x/tools/go/ssa"
 )
@@ -752,7 +753,10 @@ func (ex *Exec) step(st *State, instr ssa.Instruction) bool {
 		}
 		gt, gf := tb.And(st.G, c), tb.And(st.G, tb.Not(c))
 		inLoop := len(st.top().fi.loops[in.Block()]) > 0
-		if ex.FeasAll || (inLoop && ex.sched == nil) {
+		if ex.FeasAll || inLoop {
+			if os.Getenv("VERIF_DEBUG") == "3" {
+				fmt.Printf("[if] %s cond=%s\n", ex.posString(in.Cond.Pos()), ex.tb.Show(c))
+			}
 			if !ex.feasible(gt) {
 				gt = tb.False
 			} else if !ex.feasible(gf) {
